@@ -25,6 +25,13 @@ RULE = ("histories: adaptive random walks on the real ClientSession (2-6 GET/HEA
         "back after transport.close()) separate 'transport closing' from 'connection_lost delivered' (op X); drawn in "
         "the walks and scripted for FIN-while-idle, garbage-while-idle, FIN/garbage while a request waits, each followed "
         "by a same-key request before X; every connector.connect() result is logged with the closing state of its transport. "
+        "Framing class (every run): final statuses 200/201/205/206/300/404/500 with Content-Length or chunked content, head "
+        "and body in one read or the body in a later read (before or after the caller's read()), then a same-key "
+        "request; the walks draw such statuses for 30 % of the plain answers; oracle: a complete read must return "
+        "the whole framed body unless the status is 1xx/204/304 or the request was HEAD. Protocol switches: 101 with "
+        "the Upgrade token spelt websocket/WebSocket/Websocket/WEBSOCKET/tcp/TCP. Keep-alive sweep class (every run): "
+        "2-3 different keys (host, port, proxy, scheme) with idle connections released at staggered times so that the "
+        "connector's cleanup timer fires while several are alive, then one request per key in both orders. "
         "Interim responses: 100/102/103, one to three in a row, in the same read as the final response or in earlier reads "
         "with other ops in between. "
         "Connection-key classes: (a) random walks over 3 keys that vary host, port incl. explicit default, scheme, ssl= "
@@ -55,6 +62,8 @@ THEOREMS = [
     "Aio.C06.release_dirty_closes",
     "Aio.C06.closed_never_acquired",
     "Aio.C06.closing_never_acquired",
+    "Aio.C06.emptyBody_rfc9112",
+    "Aio.C06.upgrade_token_case_insensitive",
     "Aio.C06.tryAcquire_same_key",
     "Aio.C06.getLoop_same_key",
     "Aio.C06.acquired_clean_fixed",
@@ -136,16 +145,23 @@ def keyparams(spec, j, variant=0):
 
 
 # ------------------------------------------------------------------------------ peer units
+def bk(kind):
+    """base kind: 'cl:205' (Content-Length framed response with status 205) -> 'cl'; '101:WebSocket' -> '101'"""
+    return kind.split(":")[0]
+
+
 def unit(u, kind, n):
     """-> (bytes, head_len, final?, kind)"""
     body = (b"%d;" % u) * (n // len(b"%d;" % u) + 1)
     body = body[:n]
     xu = b"X-U: %d\r\n" % u
+    kind, _, arg = kind.partition(":")
+    sl = b"HTTP/1.1 %s Status\r\n" % arg.encode() if (arg and kind in ("cl", "chunked")) else b"HTTP/1.1 200 OK\r\n"
     if kind == "cl":
-        head = b"HTTP/1.1 200 OK\r\n" + xu + b"Content-Length: %d\r\n\r\n" % n
+        head = sl + xu + b"Content-Length: %d\r\n\r\n" % n
         return head + body, len(head), True
     if kind == "chunked":
-        head = b"HTTP/1.1 200 OK\r\n" + xu + b"Transfer-Encoding: chunked\r\n\r\n"
+        head = sl + xu + b"Transfer-Encoding: chunked\r\n\r\n"
         k = n // 2
         parts = [body[:k], body[k:]]
         enc = b"".join(b"%x\r\n%s\r\n" % (len(p), p) for p in parts if p) + b"0\r\n\r\n"
@@ -178,7 +194,9 @@ def unit(u, kind, n):
         head = b"HTTP/1.0 200 OK\r\n" + xu + b"Connection: keep-alive\r\nContent-Length: %d\r\n\r\n" % n
         return head + body, len(head), True
     if kind == "101":
-        head = b"HTTP/1.1 101 Switching Protocols\r\n" + xu + b"Connection: upgrade\r\nUpgrade: websocket\r\n\r\n"
+        # protocol names are case-insensitive (RFC 9110 7.8): IIS answers `Upgrade: WebSocket`
+        head = (b"HTTP/1.1 101 Switching Protocols\r\n" + xu + b"Connection: upgrade\r\nUpgrade: "
+                + (arg or "websocket").encode() + b"\r\n\r\n")
         return head + body, len(head), True
     if kind == "headonly":   # answer to HEAD: announces a body that is not sent
         head = b"HTTP/1.1 200 OK\r\n" + xu + b"Content-Length: %d\r\n\r\n" % n
@@ -224,6 +242,10 @@ class Peer:
         n = rng.choice([0, 1, 3, 7, 12, 30])
         r = rng.random()
         main = "headonly" if (skip and rng.random() < 0.8) else "cl"
+        if main == "cl" and rng.random() < 0.3:
+            # other final statuses with a framed body (2xx/3xx/4xx/5xx incl. 205, 206, 300): only 1xx/204/304 end at the empty line
+            main = rng.choice(["cl:205", "cl:205", "cl:201", "cl:206", "cl:300", "cl:404", "cl:500", "chunked:205", "chunked:404"])
+            n = max(n, 3)
         if r < 0.42:
             self.add(c, main, n)
         elif r < 0.50:
@@ -252,7 +274,7 @@ class Peer:
         elif r < 0.97:
             self.add(c, "garbage", 0)
         elif r < 0.985:
-            self.add(c, "101", rng.choice([0, 4]))
+            self.add(c, rng.choice(["101", "101:WebSocket", "101:Websocket", "101:TCP", "101:tcp"]), rng.choice([0, 4]))
         else:
             pass  # silence
 
@@ -323,8 +345,8 @@ def gen_walk(rng, cfg, keyset, max_req, max_ops=48):
         if st["nreq"] < max_req:
             cands += [("Q",)] * 5
         cands += [("A", 1), ("A", 1)]
-        if rng.random() < 0.04:
-            cands += [("A", cfg["keepalive"]), ("A", cfg["keepalive"] + 1)]
+        if rng.random() < (0.15 if len(keyset) > 1 else 0.04):
+            cands += [("A", cfg["keepalive"]), ("A", cfg["keepalive"] + 1), ("A", cfg["keepalive"] // 2), ("A", cfg["keepalive"] // 2)]
             if cfg["total"]:
                 cands += [("A", cfg["total"] - 1), ("A", cfg["total"])]
         only_time = all(x[0] in ("A", "unsolicited", "pclose") for x in cands)
@@ -344,7 +366,7 @@ def gen_walk(rng, cfg, keyset, max_req, max_ops=48):
         if ch[0] == "unsolicited":
             c = ch[1]
             if rng.random() < 0.6:
-                peer.add(c, rng.choice(["cl", "cl", "close", "101", "garbage"]), rng.choice([0, 4, 9]))
+                peer.add(c, rng.choice(["cl", "cl", "close", "101", "101:WebSocket", "garbage"]), rng.choice([0, 4, 9]))
             else:
                 peer.add(c, "cl", 4, partial=rng.choice([1, 5, 17, 25]))
             n = peer.cut(c)
@@ -374,6 +396,22 @@ def _units_by_conn(R, peer_units, early_units):
     return peer_units
 
 
+def _dechunk(b):
+    out, i = b"", 0
+    while True:
+        j = b.find(b"\r\n", i)
+        if j < 0:
+            return out
+        try:
+            n = int(b[i:j], 16)
+        except ValueError:
+            return out
+        if n == 0:
+            return out
+        out += b[j + 2:j + 2 + n]
+        i = j + 2 + n + 2
+
+
 def unit_complete(stream, un):
     """the bytes of this unit that were delivered form a complete message (head + announced body)"""
     import re as _re
@@ -382,9 +420,9 @@ def unit_complete(stream, un):
     if h < 0:
         return False
     m = _re.search(rb"\r\nContent-Length: (\d+)\r\n", b[:h + 2])
-    if un["kind"] in ("cl", "close", "http10", "http10ka"):
+    if bk(un["kind"]) in ("cl", "close", "http10", "http10ka"):
         return m is not None and len(b) - (h + 4) >= int(m.group(1))
-    if un["kind"] == "chunked":
+    if bk(un["kind"]) == "chunked":
         return b.endswith(b"0\r\n\r\n")
     return True
 
@@ -420,6 +458,7 @@ def oracle(ctx, R, units, case):
     legit_end = {}        # c -> end offset of the response to the current holder (None = open ended)
     legit_unit = {}       # c -> the unit that is the response to the current holder
     shifted = set()       # connections that received bytes while nobody held them
+    shift_off = {}        # … and the stream offset of the first such byte
 
     def u_at(c, pos):
         for un in units.get(c, []):
@@ -482,6 +521,7 @@ def oracle(ctx, R, units, case):
             stream[c] = stream.get(c, b"") + data
             if holder is None:
                 shifted.add(c)      # from here on the peer's units and the client's exchanges are out of step
+                shift_off.setdefault(c, s)
                 if written.get(c):
                     dirty.setdefault(c, "bytes-while-idle")
             else:
@@ -520,7 +560,7 @@ def oracle(ctx, R, units, case):
                             dirty.setdefault(c, "peer-announced-close")
                         break
             for un in units.get(c, []):
-                if un["kind"] == "101" and un["start"] + un["head"] <= e and un["start"] >= req_off.get((c, holder), 1 << 60):
+                if bk(un["kind"]) == "101" and un["start"] + un["head"] <= e and un["start"] >= req_off.get((c, holder), 1 << 60):
                     dirty.setdefault(c, "upgraded")
         elif k == "acquire":
             _, c, j, opi, closing = ev
@@ -585,12 +625,22 @@ def oracle(ctx, R, units, case):
                     bad += [t for t in tags(c, un["start"] + un["head"], lim) if t != j]
             else:
                 exp = (b"%d;" % u) * (len(body) // len(b"%d;" % u) + 1)
-                if body and body != exp[:len(body)] and not bad and un["kind"] in ("cl", "chunked", "close", "http10", "http10ka"):
+                if body and body != exp[:len(body)] and not bad and bk(un["kind"]) in ("cl", "chunked", "close", "http10", "http10ka"):
                     # (a head that is itself foreign is reported as such; a HEAD-style unit consumed by a GET is the peer's lie)
                     viol.append(("C06/stale-bytes/mixed-body", f"response {j} body (unit {u}) holds foreign bytes: {body[:40]!r}"))
                 if un["end"] > un["start"] + un["head"] and body:
                     body_tags = tags(c, un["start"] + un["head"], un["end"])
                     bad += [t for t in body_tags if t != j]
+                # the response ends where its framing says (RFC 9112 6.3: only 1xx/204/304 and answers to HEAD end at the
+                # empty line): a complete read that returns less leaves the rest on the connection as "another response"
+                full = un["end"] - un["start"] - un["head"]
+                if (bk(un["kind"]) in ("cl", "chunked", "close", "http10", "http10ka") and len(us) == 1 and not bad
+                        and not R.meta[j]["skip"] and not (100 <= r.status < 200 or r.status in (204, 304))
+                        and shift_off.get(c, 1 << 60) >= un["start"] + un["head"] and unit_complete(stream.get(c, b""), un)):
+                    want = (b"%d;" % u) * (full // len(b"%d;" % u) + 1)
+                    if bk(un["kind"]) != "chunked" and len(body) < full or bk(un["kind"]) == "chunked" and len(body) < len(_dechunk(stream[c][un["start"] + un["head"]:un["end"]])):
+                        viol.append(("C06/framing/response-body-ends-before-its-announced-end",
+                                     f"response {j} (status {r.status}, unit {u}) was completed with {len(body)} body bytes although its framing announces more; the rest stays on connection {c}"))
         if bad:
             t = bad[0]
             if t is None:
@@ -751,6 +801,18 @@ def scripted_walk(steps):
             c = R.used[st[1]][-1] if st[1] < len(R.used) and R.used[st[1]] else None
             if c is None:
                 continue
+            if st[0] == "send":            # ("send", j, kind, n, "head" | "all"): one unit, its head first or whole
+                start = len(peer.pending.get(c, b""))
+                peer.add(c, st[2], st[3])
+                un = peer.units[c][-1]
+                n = un["head"] if st[4] == "head" else un["end"] - un["start"]
+                data = bytes(peer.pending[c][:start + n]); del peer.pending[c][:start + n]
+                return ("R", c, data)
+            if st[0] == "rest":            # what is still pending for that connection
+                if not peer.pending.get(c):
+                    continue
+                data = bytes(peer.pending[c]); del peer.pending[c][:]
+                return ("R", c, data)
             if st[0] == "resp" or st[0] == "garbage":
                 n = peer.add(c, "cl" if st[0] == "resp" else "garbage", 4)
                 data = bytes(peer.pending[c][:n]); del peer.pending[c][:n]
@@ -760,6 +822,50 @@ def scripted_walk(steps):
             return (st[0], c)
         return None
     return next_op, peer
+
+
+def sweep_walk(keys, gaps, order):
+    """keep-alive sweep with idle connections of several keys: request i (key keys[i]) is answered and read,
+    then gaps[i] time units pass; the connector's cleanup timer fires in between; afterwards one request per
+    key in `order` - each must get the connection that was opened for ITS key (or a new one)."""
+    peer = Peer(random.Random(0))
+    plan = []
+    for i, k in enumerate(keys):
+        plan += [("Q", k), ("resp", i), ("D", i), ("A", gaps[i])]
+    for n, ki in enumerate(order):
+        plan += [("Q", keys[ki]), ("resp", len(keys) + n), ("D", len(keys) + n)]
+    it = iter(plan)
+
+    def next_op(R):
+        for st in it:
+            if st[0] == "Q":
+                return ("Q", st[1], False, b"")
+            if st[0] == "A":
+                if st[1] > 0:
+                    return st
+                continue
+            if st[0] == "D":
+                return st
+            c = R.used[st[1]][-1] if st[1] < len(R.used) and R.used[st[1]] else None
+            if c is None:
+                continue
+            n = peer.add(c, "cl", 4)
+            data = bytes(peer.pending[c][:n]); del peer.pending[c][:n]
+            return ("R", c, data)
+        return None
+    return next_op, peer
+
+
+def sweep_cases(quick):
+    ka = 120   # keep-alive in units (15 s): the cleanup timer fires 120 units after the first release
+    KA = "1.80.0.0.0.0.0"; KB = "2.80.0.0.0.0.0"; KC = "1.8080.0.0.0.0.0"; KD = "1.80.0.0.1.1.0"; KE = "1.443.1.0.0.0.0"
+    out = []
+    for keys in ([KA, KB], [KA, KC], [KA, KD], [KA, KE], [KA, KB, KC]):
+        for gaps in ([60, 60], [40, 80], [100, 20], [119, 1], [60, 61], [1, 119], [60, 180]):
+            g = (gaps + [0])[:len(keys)] if len(keys) == 2 else [gaps[0] // 2, gaps[0] - gaps[0] // 2, gaps[1]]
+            for order in ([1, 0], [0, 1]) if len(keys) == 2 else ([2, 1, 0], [1, 2, 0]):
+                out.append((keys, g, order))
+    return out if not quick else out[::2] + out[1:8:2]
 
 
 CLOSING_WINDOW = [
@@ -776,6 +882,22 @@ CLOSING_WINDOW = [
     # response complete, released by the caller while the transport is held closing
     [("Q",), ("H", 0), ("resp", 0), ("D", 0), ("F", 0), ("Q",), ("A", 1), ("X", 0, True), ("resp", 1), ("D", 1)],
 ]
+
+
+def framing_cases():
+    """responses whose end the client must find by their framing, and protocol switches, each followed by a
+    same-key request: status x (head and body in one read | body in a later read); Upgrade token spellings"""
+    out = []
+    for st in ("200", "201", "205", "206", "300", "404", "500"):
+        for kind in ("cl", "chunked"):
+            for how in ("all", "head"):
+                out.append([("Q",), ("send", 0, f"{kind}:{st}", 7, how), ("D", 0), ("rest", 0), ("A", 1), ("Q",),
+                            ("resp", 1), ("D", 1)])
+                out.append([("Q",), ("send", 0, f"{kind}:{st}", 7, how), ("rest", 0), ("D", 0), ("Q",), ("resp", 1), ("D", 1)])
+    for tok in ("websocket", "WebSocket", "Websocket", "WEBSOCKET", "tcp", "TCP"):
+        out.append([("Q",), ("send", 0, f"101:{tok}", 0, "all"), ("D", 0), ("A", 1), ("Q",), ("resp", 1), ("D", 1)])
+        out.append([("Q",), ("send", 0, f"101:{tok}", 4, "head"), ("Q",), ("rest", 0), ("resp", 1), ("D", 1)])
+    return out
 
 
 def expect_walk(script, split):
@@ -905,6 +1027,8 @@ def check(ctx):
     rng = ctx.rng
     n_same = 4000 if ctx.quick else 100000
     n_keys = 800 if ctx.quick else 20000
+    if os.environ.get("C06_SCALE"):      # experiments on a loaded box only: fewer random histories
+        n_same = int(n_same * float(os.environ["C06_SCALE"])); n_keys = int(n_keys * float(os.environ["C06_SCALE"]))
     jobs = []
     for i in range(n_same + n_keys):
         cfg = cfg_draw(rng)
@@ -965,6 +1089,26 @@ def check(ctx):
                 ctx.hit("keypair:" + ("same" if canon(k1) == canon(k2) else "differs") + (":ws_connect" if variant & 4 else ""))
                 recs.append((case, R.states, R.ops, viol)); lines.append(model_line(pcfg, R.ops))
                 del R
+    flush()
+    # keep-alive sweep (the connector's _cleanup timer) while idle connections of several keys are alive
+    for (keys, gaps, order) in sweep_cases(ctx.quick):
+        next_op, peer = sweep_walk(keys, gaps, order)
+        R = M.run_scenario(pcfg, next_op, lambda spec, j: keyparams(spec, j, 0))
+        units = {c: list(us) for c, us in peer.units.items()}
+        case, viol = evaluate(ctx, R, units, {}, pcfg, "sweep")
+        ctx.hit("keepalive-sweep")
+        recs.append((case, R.states, R.ops, viol)); lines.append(model_line(pcfg, R.ops))
+        del R
+    flush()
+    # framing by status / protocol switch spellings, then a same-key request
+    for steps in framing_cases():
+        next_op, peer = scripted_walk(steps)
+        R = M.run_scenario(pcfg, next_op, lambda spec, j: keyparams(spec, j, 0))
+        units = {c: list(us) for c, us in peer.units.items()}
+        case, viol = evaluate(ctx, R, units, {}, pcfg, "framing")
+        ctx.hit("framing-class")
+        recs.append((case, R.states, R.ops, viol)); lines.append(model_line(pcfg, R.ops))
+        del R
     flush()
     # transport closing but connection_lost not yet delivered, at the moment of the next acquire
     for steps in CLOSING_WINDOW:
